@@ -16,10 +16,12 @@ import time
 
 REPO = os.environ.get('VERIF_REPO', '/repo')
 VERIF = os.path.dirname(os.path.dirname(os.path.abspath(__file__)))
-BUILD = os.path.join(VERIF, '.build')
+# the registered commands use the defaults; the overrides exist for the mutation self-test (bin/seedregress.py), which runs the checks
+# against a scratch clone with a seeded change applied and must not touch the evidence of the real tree
+BUILD = os.environ.get('VERIF_BUILD_DIR') or os.path.join(VERIF, '.build')
 HARNESS = os.path.join(VERIF, 'harness')
-EVIDENCE = os.path.join(VERIF, 'evidence')
-REPLAY = os.path.join(VERIF, 'replay')
+EVIDENCE = os.environ.get('VERIF_EVIDENCE_DIR') or os.path.join(VERIF, 'evidence')
+REPLAY = os.environ.get('VERIF_REPLAY_DIR') or os.path.join(VERIF, 'replay')
 NCPU = min(16, os.cpu_count() or 4)
 GUARD = 'EBUSD_VERIF'
 
